@@ -65,9 +65,9 @@ func (c *caseJ) broken() (n int, last bool) {
 	return
 }
 
-func floatVal(f float64) string  { return fmt.Sprintf("%016x", math.Float64bits(f)) }
-func floatOf(v string) float64   { u, _ := strconv.ParseUint(v, 16, 64); return math.Float64frombits(u) }
-func intOf(v string) int64       { i, _ := strconv.ParseInt(v, 10, 64); return i }
+func floatVal(f float64) string { return fmt.Sprintf("%016x", math.Float64bits(f)) }
+func floatOf(v string) float64  { u, _ := strconv.ParseUint(v, 16, 64); return math.Float64frombits(u) }
+func intOf(v string) int64      { i, _ := strconv.ParseInt(v, 10, 64); return i }
 func (f fieldJ) describe() string {
 	switch f.Kind {
 	case "float":
